@@ -48,3 +48,13 @@ package types
 //@   uses fsumStep(data, 0)
 //@   ensures mean: s == ufstr("format_float", FSUM(data, len(data)) / real(len(data)), 102, 8, 64)
 //@ end
+
+// Genesis validation: an accepted genesis file only lists feeds whose history size is within the bounds every other
+// entry point enforces (SetFeedValue relies on it).
+//@ func ValidateGenesis(data)
+//@   property C17
+//@   returns err
+//@   invariant #1 idx: rangeindex >= 0 - 1 && rangeindex < len(data.Entries)
+//@   invariant #1 ok:  forall j:Int :: 0 <= j && j <= rangeindex ==> data.Entries[j].Feed.LatestHistory >= 1 && data.Entries[j].Feed.LatestHistory <= 100
+//@   ensures history_ok: err == nil ==> (forall j:Int :: 0 <= j && j < len(data.Entries) ==> data.Entries[j].Feed.LatestHistory >= 1 && data.Entries[j].Feed.LatestHistory <= 100)
+//@ end
